@@ -133,6 +133,11 @@ func decodeCollCase(tier string, idx int, tape *Tape) *collCase {
 			if r.Form == FResult || r.Form == FResultErr {
 				if tape.Choose(StCfg, 3) == 0 {
 					o.Key = keyPool[tape.Choose(StCfg, 2)]
+					if tape.Choose(StCfg, 5) == 0 {
+						// a field tagged with a name AND a group: godi may refuse the registration (as it
+						// refuses Name+Group options) or serve the value under both - see ambiguousReg
+						o.Group = groupPool[tape.Choose(StCfg, 2)]
+					}
 				}
 			}
 			r.Outs = append(r.Outs, o)
@@ -239,9 +244,32 @@ func newCollModel() *collModel {
 }
 
 // add returns true if accepted.
+// ambiguousReg: a result-object field carries both a name and a group tag.
+func ambiguousReg(r *Reg) bool {
+	for _, o := range r.Outs {
+		if o.Key != "" && o.Group != "" {
+			return true
+		}
+	}
+	return false
+}
+
 func (m *collModel) add(r *Reg) bool {
 	m.regs[r.ID] = r
 	ps := regIdents(r)
+	if ambiguousReg(r) {
+		// if accepted, such a field is a keyed service and a group member at once
+		var split []Provision
+		for _, p := range ps {
+			if p.Id.Key != "" && p.Id.Group != "" {
+				split = append(split, Provision{Id: Ident{T: p.Id.T, Key: p.Id.Key}, Reg: p.Reg, OutIdx: p.OutIdx},
+					Provision{Id: Ident{T: p.Id.T, Group: p.Id.Group}, Reg: p.Reg, OutIdx: p.OutIdx})
+				continue
+			}
+			split = append(split, p)
+		}
+		ps = split
+	}
 	if (r.Form == FVoid || r.Form == FVoidErr) && r.Name != "" {
 		// named constructor without a service result: occupies (struct{}, name)
 		id := Ident{T: voidRef(), Key: r.Name}
@@ -466,6 +494,13 @@ func runCollCase(c *collCase, tape *Tape, out *RunOut) []Violation {
 	typesUsed := 4
 
 	queries := func(when string) {
+		for _, p := range m.order {
+			if r := m.regs[p.Reg]; r != nil && ambiguousReg(r) {
+				// how an accepted name+group field is counted / listed is not prescribed; what it
+				// must be is resolvable (resolveAll)
+				return
+			}
+		}
 		// Count / ToSlice
 		want := m.descMultiset()
 		wantN := 0
@@ -616,8 +651,17 @@ func runCollCase(c *collCase, tape *Tape, out *RunOut) []Violation {
 		case cAdd, cAddInvalid:
 			err := h.addReg(coll, op.Reg)
 			accepted := false
+			if op.Kind == cAdd && ambiguousReg(op.Reg) && err != nil {
+				// refusing a field with a name and a group is a legitimate answer; then it has no effect
+				out.Reach["coll.ambiguous-field-refused"]++
+				queries(when + " (refused)")
+				continue
+			}
 			if op.Kind == cAdd {
 				accepted = m.add(op.Reg)
+				if ambiguousReg(op.Reg) {
+					out.Reach["coll.ambiguous-field-accepted"]++
+				}
 			}
 			_, cls := classify(err)
 			switch {
